@@ -31,7 +31,7 @@ USERS = ('ua', 'ub', 'uc')
 PATHS = ('f/a.mp3', 'f/b.mp3')
 DIRS = ('d/a', 'd/b')
 WRONG_TICKET = 7999
-N_RANDOM = {'quick': 1900, 'thorough': 80000}
+N_RANDOM = {'quick': 2860, 'thorough': 80080}     # per 13: 3 suspended-handler, 2 call-race, 8 general
 
 RULE = (
     "One case = one history on one simulated world (client 'me' + scripted server + peers p1,p2 with established P "
@@ -349,8 +349,10 @@ def systematic() -> list[dict]:
     out = []
     lat = {'server': 2, 'p1': 2, 'p2': 2}
 
-    def add(reqs, segs, note, lat_=None):
+    def add(reqs, segs, note, lat_=None, listener=None):
         h = {'lat': dict(lat_ or lat), 'requests': _copy(reqs), 'segments': _copy(segs), 'note': note}
+        if listener:
+            h['listener'] = dict(listener)
         number_messages(h)
         out.append(h)
 
@@ -441,6 +443,65 @@ def systematic() -> list[dict]:
     add([R('create_server_response_future', 'S4', 'server', [], 6, T(8))],
         [SEG('server', 0, MSG('S4', time_left=1)), SEG('server', 20, MSG('S4', time_left=2))],
         'matching frames before the call and after the deadline')
+
+    # -- handlers / listeners that really suspend while waiters end (>= 2 waiters for one message) --------------
+    chat = lambda u='ua', t='hi': MSG('S5', username=u, message=t)                     # noqa
+    two = lambda end0, k0='create_server_response_future', k1='wait_for_server_message': [   # noqa
+        R(k0, 'S5', 'server', [['username', 'eq', 'ua']], 0, end0, o=0),
+        R(k1, 'S5', 'server', [], 0, T(24), o=1)]
+    for hops in range(0, 9):
+        add(two(CH(0, hops)), [SEG('server', 2, chat())],
+            f'private message (handler acks through gather): first waiter cancelled {hops} loop iterations after arrival')
+    for hops in (2, 3, 4):
+        add(two(CH(0, hops), 'wait_for_server_message', 'create_server_response_future'), [SEG('server', 2, chat())],
+            f'private message: first waiter is a wait_for_server_message task cancelled {hops} iterations after arrival')
+    add(two(T(4)), [SEG('server', 2, chat())], 'private message: deadline of the first waiter == arrival')
+    for cls, link, m, k0, k1, src in (
+            ('S1', 'server', MSG('S1', username='ua', status=1, privileged=False), 'create_server_response_future',
+             'wait_for_server_message', 'server'),
+            ('P1', 'p1', MSG('P1', filename='f/a.mp3'), 'create_peer_response_future', 'wait_for_peer_message', 'p1'),
+            ('P4', 'p1', MSG('P4', filename='nf/a.mp3'), 'wait_for_peer_message', 'create_peer_response_future', 'p1')):
+        for hops in (1, 2, 4, 6):
+            add([R(k0, cls, src, [], 0, CH(0, hops), o=0), R(k1, cls, src, [], 0, T(24), o=1),
+                 R('register_response_future', cls, src if src == 'server' else 'any', [], 1, T(24), o=2,
+                   cc='server' if src == 'server' else 'peer', peer=None)],
+                [SEG(link, 2, m)], f'application listener suspends 5 iterations: first waiter cancelled {hops} iterations after arrival',
+                listener={'c': [cls], 'yields': 5})
+        # virtual-time suspension: the library timeout / a cancel lands inside it
+        add([R(k1, cls, src, [], 0, T(5), o=0), R(k0, cls, src, [], 0, T(24), o=1)],
+            [SEG(link, 2, m)], 'application listener suspends 2 ticks: deadline of the first waiter inside the suspension',
+            listener={'c': [cls], 'ticks': 2})
+        add([R(k0, cls, src, [], 0, C(5), o=0), R(k1, cls, src, [], 0, T(24), o=1)],
+            [SEG(link, 2, m)], 'application listener suspends 2 ticks: first waiter cancelled inside the suspension',
+            listener={'c': [cls], 'ticks': 2})
+
+    # -- a reply processed right after the call started (zero latency, swept by zero-time yields) ----------------
+    zero = {'server': 0, 'p1': 0, 'p2': 0}
+    for k, c in EXEC_KINDS.items():
+        if c == 'P3':
+            continue
+        if c in ('S1', 'S2', 'S3'):
+            arg = {'username': 'ua'}
+            m = {'S1': MSG('S1', username='ua', status=2, privileged=True), 'S2': MSG('S2', username='ua'),
+                 'S3': MSG('S3', username='ua', ip='2.2.2.2', port=2000)}[c]
+            link = 'server'
+        elif c == 'S4':
+            arg, m, link = {}, MSG('S4', time_left=3), 'server'
+        else:
+            arg, m, link = {'peer': 'p1'}, MSG('P2', description='db', upload_slots=2, queue_size=1), 'p1'
+        sweep = range(0, 9) if c in ('S1', 'P2') else (1, 2, 3, 4)
+        for ys in sweep:
+            r = R(k, c, '', [], 1, T(8), arg=arg, y=0)
+            implied(r)
+            sg = SEG(link, 1, m)
+            sg['y'] = ys
+            add([r], [sg], f'zero latency: reply written {ys} zero-time yields after the call was started', zero)
+        for yr in (1, 2, 3):
+            r = R(k, c, '', [], 1, T(8), arg=arg, y=yr)
+            implied(r)
+            sg = SEG(link, 1, m)
+            sg['y'] = 0
+            add([r], [sg], f'zero latency: reply written {yr} zero-time yields before the call was started', zero)
     return out
 
 
@@ -494,10 +555,10 @@ def _gen_request(rng: random.Random, ri: int, focus: list) -> dict:
         implied(r)
         return r
     if k in ('wait_for_server_message', 'create_server_response_future'):
-        c = rng.choice(fs + fs + ['S1', 'S2', 'S3', 'S4'])
+        c = rng.choice(fs + fs + ['S1', 'S2', 'S3', 'S4', 'S5'])
         return R(k, c, 'server', _gen_matchers(rng, c), s, {})
     if k in ('wait_for_peer_message', 'create_peer_response_future'):
-        c = rng.choice(fp + fp + ['P1', 'P2', 'P3'])
+        c = rng.choice(fp + fp + ['P1', 'P2', 'P3', 'P4', 'P5'])
         return R(k, c, rng.choice(('p1', 'p1', 'p2')), _gen_matchers(rng, c), s, {})
     # register_response_future
     v = rng.choice(('server', 'peer', 'peer', 'anypeer', 'anypeer', 'mis-server', 'mis-peer'))
@@ -543,8 +604,128 @@ def _field_values(rng: random.Random, c: str, r: Optional[dict], ri: int, wrong:
     return f
 
 
+_WAITER_KINDS = {'server': ('wait_for_server_message', 'create_server_response_future', 'register_response_future'),
+                 'peer': ('wait_for_peer_message', 'create_peer_response_future', 'register_response_future')}
+
+
+def _waiter(rng: random.Random, c: str, link: str, m: dict, s: int, o: int) -> dict:
+    """A waiter (not execute / place) that message m from ``link`` answers."""
+    fam = CLASSES[c][0]
+    k = rng.choice(_WAITER_KINDS[fam])
+    ms = []
+    fields = [f for f, _ in CLASSES[c][1] if f != 'place']
+    if fields and rng.random() < 0.6:
+        f = rng.choice(fields)
+        ms.append([f, rng.choice(('eq', 'eq', 'c_eq')), m['f'][f]])
+    if k == 'register_response_future':
+        if fam == 'server':
+            return R(k, c, 'server', ms, s, {}, o=o, cc='server', peer=None)
+        anyp = rng.random() < 0.5
+        return R(k, c, 'any' if anyp else link, ms, s, {}, o=o, cc='peer', peer=None if anyp else link)
+    return R(k, c, 'server' if fam == 'server' else link, ms, s, {}, o=o)
+
+
+def gen_suspended(rng: random.Random) -> dict:
+    """2-3 waiters answered by one message whose handling really suspends; one of the earlier-registered waiters
+    ends (cancel / library timeout) at the arrival instant plus 0..8 loop iterations, or inside a virtual-time
+    suspension."""
+    lat = {'server': rng.choice((2, 4)), 'p1': rng.choice((2, 4)), 'p2': rng.choice((2, 3))}
+    mode = rng.choice(('chat', 'chat', 'yields', 'yields', 'ticks'))
+    c = 'S5' if mode == 'chat' else rng.choice(('S1', 'S3', 'S4', 'S5', 'P1', 'P2', 'P4', 'P5'))
+    fam = CLASSES[c][0]
+    link = 'server' if fam == 'server' else rng.choice(('p1', 'p2'))
+    m = {'c': c, 'f': _field_values(rng, c, None, -1, None)}
+    hist: dict = {'lat': lat, 'requests': [], 'segments': [], 'family': 'suspended'}
+    d = 0
+    if mode == 'yields':
+        hist['listener'] = {'c': [c], 'yields': rng.randrange(1, 7)}
+    elif mode == 'ticks':
+        d = rng.choice((1, 2, 3))
+        hist['listener'] = {'c': [c], 'ticks': d, 'yields': rng.choice((0, 0, 2))}
+    n = rng.choice((2, 2, 3))
+    t_send = rng.choice((1, 2, 3))
+    a = t_send + lat[link]
+    reqs = [_waiter(rng, c, link, m, rng.choice((0, 0, 1)) if i else 0, i) for i in range(n)]
+    ender = rng.choice((0, 0, 0, 1)) if n > 2 else 0          # not the last one: somebody must be left behind it
+    for i, r in enumerate(reqs):
+        if i != ender:
+            r['end'] = T(a + 16 + 4 * d - r['s'])
+            continue
+        how = rng.choice(('hook', 'hook', 'hook', 'timeout', 'timer'))
+        if d and how == 'hook' and rng.random() < 0.6:
+            how = rng.choice(('timeout', 'timer'))
+        if how == 'hook':
+            r['end'] = CH(0, rng.randrange(0, 9))
+        elif how == 'timeout':
+            r['end'] = T(a + (rng.randrange(0, d + 1) if d else 0) - r['s'])
+        else:
+            r['end'] = C(a + (rng.randrange(0, d + 1) if d else 0))
+            r['end']['y'] = rng.randrange(0, 5)
+    hist['requests'] = reqs
+    segs = [{'link': link, 't': t_send, 'msgs': [m], 'o': 1}]
+    if rng.random() < 0.35:                                    # a second chance for whoever was skipped
+        segs.append({'link': link, 't': t_send + rng.choice((1, 4, 6)), 'msgs': [_copy(m)], 'o': 1})
+    if rng.random() < 0.3:
+        c2 = rng.choice(tuple(CLASSES))
+        segs.append({'link': 'server' if CLASSES[c2][0] == 'server' else rng.choice(('p1', 'p2')),
+                     't': rng.randrange(0, a + 4), 'msgs': [{'c': c2, 'f': _field_values(rng, c2, None, -1, None)}], 'o': 0})
+    hist['segments'] = segs
+    number_messages(hist)
+    return hist
+
+
+def gen_callrace(rng: random.Random) -> dict:
+    """Zero latency: a matching reply is written 0..8 zero-time yields before / after the call is started at the
+    same virtual instant, so that it is processed while the call is still sending its request."""
+    lat = {'server': 0, 'p1': 0, 'p2': 0}
+    k = rng.choice(tuple(x for x in EXEC_KINDS if x != 'execute:PeerGetDirectoryContentCommand') * 3 + (
+        'wait_for_server_message', 'create_peer_response_future', 'request_place_in_queue'))
+    s = rng.choice((1, 2))
+    if k in EXEC_KINDS:
+        c = EXEC_KINDS[k]
+        if c in ('S1', 'S2', 'S3'):
+            arg = {'username': rng.choice(USERS[:2])}
+        elif c == 'S4':
+            arg = {}
+        else:
+            arg = {'peer': rng.choice(('p1', 'p2'))}
+        r = R(k, c, '', [], s, {}, arg=arg)
+        implied(r)
+    elif k == 'request_place_in_queue':
+        r = R(k, 'P1', '', [], s, {}, arg={'peer': rng.choice(('p1', 'p2')), 'path': rng.choice(PATHS)})
+        implied(r)
+    else:
+        c = 'S1' if k == 'wait_for_server_message' else 'P2'
+        r = R(k, c, 'server' if c == 'S1' else rng.choice(('p1', 'p2')), _gen_matchers(rng, c)[:1], s, {})
+    r['end'] = T(PLACE_TICKS) if k == 'request_place_in_queue' else T(rng.choice((4, 8)))
+    r['y'] = rng.choice((0, 0, 0, 1, 2, 3, 4))
+    r['o'] = 1
+    reqs = [r]
+    m = {'c': r['c'], 'f': _field_values(rng, r['c'], r, 0, None)}
+    link = r['src'] if r['src'] in ('p1', 'p2') else ('server' if r['src'] == 'server' else 'p1')
+    seg = {'link': link, 't': s, 'msgs': [m], 'o': rng.choice((0, 2)), 'y': rng.randrange(0, 9)}
+    segs = [seg]
+    if rng.random() < 0.4:                       # a plain waiter with the same expectation, started together
+        w2 = R('create_server_response_future' if CLASSES[r['c']][0] == 'server' else 'create_peer_response_future',
+               r['c'], r['src'], [list(x) for x in r['m']], s, T(8), o=rng.choice((0, 2)), y=r['y'])
+        reqs.append(w2)
+    if rng.random() < 0.3:                       # the same reply again, one tick later
+        segs.append({'link': link, 't': s + 1, 'msgs': [_copy(m)], 'o': 1})
+    if rng.random() < 0.3:
+        mm = {'c': r['c'], 'f': _field_values(rng, r['c'], r, 0, 0 if r['m'] else None)}
+        seg['msgs'].insert(rng.randrange(0, 2), mm)
+    hist = {'lat': lat, 'requests': reqs, 'segments': segs, 'family': 'callrace'}
+    number_messages(hist)
+    return hist
+
+
 def gen_history(seed: int, idx: int) -> dict:
     rng = random.Random(f'{seed}:{ID}:{idx}')
+    fam = idx % 13
+    if fam in (0, 1, 2):
+        return gen_suspended(rng)
+    if fam in (3, 4):
+        return gen_callrace(rng)
     lat = {'server': rng.choice((2, 2, 4, 8)), 'p1': rng.choice((2, 2, 3, 8)), 'p2': rng.choice((2, 4, 8))}
     nreq = rng.choice((1, 2, 2, 3, 3, 4, 4))
     focus = rng.sample(['S1', 'S1', 'S3', 'S4', 'P1', 'P1', 'P2', 'P3'], 2)
